@@ -639,6 +639,11 @@ func (ex *Exec) unfoldGround(st *State, u ast.Expr, ctx *specCtx, splitSrc strin
 		}
 	case "shr11":
 		v := ex.specTerm(st, call.Args[0], ctx)
+		vn := ex.define(st, "V", v)
+		if vn.S != v.S {
+			// keep the original term visible to E-matching through the equality just assumed
+			v = vn
+		}
 		p := konst(call.Args[1])
 		st.assume(Eq(App(SInt, "f_shr11", v, IntLit(0)), v))
 		for j := int64(1); j <= p; j++ {
